@@ -197,3 +197,12 @@ fn panic_does_not_fit(size: usize, nbytes: usize) -> ! {
 fn offset_from(dst: *const u8, original: *const u8) -> usize {
     dst as usize - original as usize
 }
+
+// Verification hook (add-only, off unless `--cfg tokio_rs_bytes_verif` is given together with
+// `--cfg loom` in the crate's own test build): loom models kept outside the repository are
+// compiled inside the crate, because the crate only switches to loom atomics for its own
+// `cfg(test)` build. `VERIF_DIR` names the directory that contains `loom/models.rs`.
+#[cfg(all(test, loom, tokio_rs_bytes_verif))]
+mod verif_loom {
+    include!(concat!(env!("VERIF_DIR"), "/loom/models.rs"));
+}
